@@ -157,7 +157,7 @@ def main(args) -> int:
     sel = os.environ.get("SELFTEST_PROPS")
     if sel:
         props = [p for p in props if p in sel.split(",")]
-    what = os.environ.get("SELFTEST_WHAT", "determinism,sensitivity").split(",")
+    what = os.environ.get("SELFTEST_WHAT", "determinism,sensitivity,conformance").split(",")
     out: dict = {"tier": args.tier}
     ok = True
     if "determinism" in what:
@@ -168,6 +168,13 @@ def main(args) -> int:
         o, res = sensitivity(args.tier, props, os.environ.get("SELFTEST_ONLY"))
         ok &= o
         out["sensitivity"] = res
+    if "conformance" in what:
+        # stub conformance (DESIGN §6): SimSocket/SimSelector/SimEventLoop vs real sockets, see selftest/conformance.py
+        from selftest.conformance import run as conformance_run
+
+        o, conf = conformance_run(args.tier)
+        ok &= o
+        out["conformance"] = conf
     path = os.path.join(VERIF, "selftest", "results.json")
     prev = {}
     if os.path.exists(path):
